@@ -35,7 +35,7 @@ func (m *meta) run(ports [][]out) (int, error) {
 	for _, p := range ports {
 		acc = (acc*37 + 11 + len(p)) % hmod
 		for _, o := range p {
-			acc = (acc*31 + o.Value()) % hmod
+			acc = (acc*31 + nodes.TryGetOutputValue(o, -1)) % hmod // the repository's accessor for optional inputs
 		}
 	}
 	if m.panics && acc%5 == 0 {
@@ -208,47 +208,52 @@ func kindIndex(name string) int {
 
 // live node of the implementation
 type live struct {
-	node  nodes.Node
-	ref   nodes.NodeOutputReference
-	value func() int
-	set   func(v int) error // parameters only
-	bad   func(v int) error // parameters fed by messages: an update that is rejected after a valid prefix
-	m     *meta             // struct nodes only
+	node     nodes.Node
+	refs     []nodes.NodeOutputReference // ways to wire this node into an input: Out(), the node itself, a renamed output
+	value    func() int
+	set      func(v int) error // parameters only
+	bad      func(v int) error // parameters fed by messages: an update that is rejected after a valid prefix
+	m        *meta             // struct nodes only
+	outdated func() bool       // struct nodes only
+	alerts   []*alertCounter
 }
 
-func newStruct(kind string, salt int, fail, panics bool) *live {
+// literal = how most node types of the repository are declared (&nodes.Struct[T, G]{Data: ...}); useNew = through
+// the constructor nodes.NewStruct
+func mkStruct[G nodes.StructProcesor[int]](data G, m *meta, useNew bool) *live {
+	var n *nodes.Struct[int, G]
+	if useNew {
+		n = nodes.NewStruct[G, int](data)
+	} else {
+		n = &nodes.Struct[int, G]{Data: data}
+	}
+	return &live{node: n, value: n.Value, m: m, outdated: func() bool { return n.Outdated() }, // (value receiver: a method value would bind a copy)
+		refs: []nodes.NodeOutputReference{n.Out(), n, nodes.StructOutput[int, G]{Struct: n, Name: "Alt"}}}
+}
+
+func newStruct(kind string, salt int, fail, panics, useNew bool) *live {
 	m := &meta{salt: salt, fail: fail, panics: panics}
 	switch kind {
 	case "chain":
-		n := &nodes.Struct[int, ChainData]{Data: ChainData{m: m}}
-		return &live{node: n, ref: n.Out(), value: n.Value, m: m}
+		return mkStruct(ChainData{m: m}, m, useNew)
 	case "bin":
-		n := &nodes.Struct[int, BinData]{Data: BinData{m: m}}
-		return &live{node: n, ref: n.Out(), value: n.Value, m: m}
+		return mkStruct(BinData{m: m}, m, useNew)
 	case "quad":
-		n := &nodes.Struct[int, QuadData]{Data: QuadData{m: m}}
-		return &live{node: n, ref: n.Out(), value: n.Value, m: m}
+		return mkStruct(QuadData{m: m}, m, useNew)
 	case "arr":
-		n := &nodes.Struct[int, ArrData]{Data: ArrData{m: m}}
-		return &live{node: n, ref: n.Out(), value: n.Value, m: m}
+		return mkStruct(ArrData{m: m}, m, useNew)
 	case "mix":
-		n := &nodes.Struct[int, MixData]{Data: MixData{m: m}}
-		return &live{node: n, ref: n.Out(), value: n.Value, m: m}
+		return mkStruct(MixData{m: m}, m, useNew)
 	case "two":
-		n := &nodes.Struct[int, TwoData]{Data: TwoData{m: m}}
-		return &live{node: n, ref: n.Out(), value: n.Value, m: m}
+		return mkStruct(TwoData{m: m}, m, useNew)
 	case "wide":
-		n := &nodes.Struct[int, WideData]{Data: WideData{m: m}}
-		return &live{node: n, ref: n.Out(), value: n.Value, m: m}
+		return mkStruct(WideData{m: m}, m, useNew)
 	case "multi":
-		n := &nodes.Struct[int, MultiData]{Data: MultiData{m: m}}
-		return &live{node: n, ref: n.Out(), value: n.Value, m: m}
+		return mkStruct(MultiData{m: m}, m, useNew)
 	case "pref":
-		n := &nodes.Struct[int, PrefData]{Data: PrefData{m: m}}
-		return &live{node: n, ref: n.Out(), value: n.Value, m: m}
+		return mkStruct(PrefData{m: m}, m, useNew)
 	case "loose":
-		n := &nodes.Struct[int, LooseData]{Data: LooseData{m: m}}
-		return &live{node: n, ref: n.Out(), value: n.Value, m: m}
+		return mkStruct(LooseData{m: m}, m, useNew)
 	}
 	panic("unknown kind " + kind)
 }
